@@ -120,3 +120,12 @@ text("C19",
      "step-mode simulation: (discoverable) floods of valid ClientHellos from many addresses - tables and goroutine count must not grow after any of them; ClientAcks that are cryptographically well-formed for the transcript the server will rebuild but carry a cookie minted for another IP, another port, another client KEM key, before a cookie-key rotation (clock advanced past the 2-minute ticker), by a previous server instance (restart) or with altered bytes - a ServerAuth is attributed to the delivery that caused it and must only follow a cookie this instance minted in the current key epoch for exactly that source address and client key (the harness saw every ServerHello leave); a control acknowledgement (same key, same address) must be answered, which validates the adversary. (hidden) every arrival is classified by construction as fresh genuine request or other (discoverable messages, wrong KEM key, flipped/truncated/extended genuine requests, late replays, junk, unknown-session packets, fake requests); any datagram the server emits is attributed to the preceding delivery and must answer a fresh genuine request",
      TB + "; replays inside the freshness window and deliveries 4..7 s old are not judged (1-second timestamp granularity)",
      "deterministic simulation with fault injection (step-mode attribution of server emissions, construction-based ground truth)", "DESIGN.md 4 C19")
+
+add("C16", "exploration",
+    [{"name": "tube-shutdown", "quick_s": 40, "thorough_s": 900}],
+    real=["tubes (Muxer, Reliable, Unreliable, sender, receiver): yield-instrumented copies of the current sources", "common.DeadlineChan"],
+    stub=["transport session under the muxers (simulated MsgConn pair)"])
+text("C16",
+     "seeded concurrent programs (Write / Read with deadline / Close / WaitForClose per tube end, 1-4 reliable and unreliable tubes opened from both sides, Muxer.Stop on either side at drawn instants, also twice and racing Create/Accept) over a network that is healthy, lossy, dead from the start, dying at a drawn instant, one-way dead or lossy-then-dead, with seeded yields (Gosched / micro- and millisecond stalls) armed at instrumented lock/channel/atomic/timer sites of package tubes; oracle: every Close and every Stop returns within 30 simulated seconds, WaitForClose completes within 90 s once both ends closed on a live network or the muxer was stopped, after Stop every tube is closed and Write fails, Read never returns bytes that were not written, after closure Read drains and reports end-of-stream, no panic, and no goroutine of the system is left when the bubble ends (synctest deadlock report)",
+     TB + "; interleavings are explored on one P at instrumented synchronisation statements (sequentially consistent); Write/Read blocking on a tube whose initiation never completes is outside the statement and not judged; on a dead network WaitForClose is only required to return once Muxer.Stop is called",
+     "deterministic simulation with fault injection (seeded schedule perturbation at instrumented yield points + fault schedules, bounded-liveness and leak oracles)", "DESIGN.md 4 C16")
